@@ -133,19 +133,19 @@ bool SeasmartToN2k(const char *buffer, uint32_t &timestamp, tN2kMsg &msg) {
     return false;
   }
   s += 2;
-  if (!readNHexByte(s, 2, pgnLow)) {
+  if (!readNHexByte(s, 2, pgnLow) || s[4] != ',') {
     return false;
   }
   s += 5;
   msg.PGN = (pgnHigh << 16) + pgnLow;
 
-  if (!readNHexByte(s, 4, timestamp)) {
+  if (!readNHexByte(s, 4, timestamp) || s[8] != ',') {
     return false;
   }
   s += 9;
 
   uint32_t source;
-  if (!readNHexByte(s, 1, source)) {
+  if (!readNHexByte(s, 1, source) || s[2] != ',') {
     return false;
   }
   msg.Source = source;
